@@ -346,7 +346,62 @@ pub fn check_one(ctx: &mut Ctx, version: u8, code_idx: usize, calls: &[usize], s
             }
         }
     }
+    if sinks {
+        // a sink that fails after k bytes (peer gone, buffer too small): the call reports the error, and the
+        // bytes of the NEXT serialization (of this or any response, same thread) are not affected by it
+        let head_len = out.windows(4).position(|w| w == b"\r\n\r\n").map(|p| p + 4).unwrap_or(out.len());
+        for k in [0usize, 1, 9, head_len.saturating_sub(1), head_len + 1] {
+            if k >= out.len() {
+                continue;
+            }
+            let mut sink = FailingSink { out: Vec::new(), room: k };
+            let w = guarded(|| r.write_all(&mut sink));
+            ctx.rep.count("failing_sink_writes");
+            match w {
+                Ok(Err(_)) if sink.out.len() <= k && sink.out[..] == out[..sink.out.len()] => {}
+                other => {
+                    ctx.rep.violation(
+                        "C05:failing-sink",
+                        format!("sink failing after {} bytes: result {:?}, {} bytes accepted (they must be a prefix of the serialization and the call must report the failure)", k, other.map(|r| r.map_err(|e| e.to_string())), sink.out.len()),
+                        case_json(version, code_idx, calls),
+                    );
+                    return None;
+                }
+            }
+            let mut again = Vec::new();
+            let w2 = guarded(|| r.write_all(&mut again));
+            if !matches!(w2, Ok(Ok(()))) || again != out {
+                let i = (0..again.len().min(out.len())).find(|i| again[*i] != out[*i]).unwrap_or(again.len().min(out.len()));
+                ctx.rep.violation(
+                    "C05:serialization-depends-on-history",
+                    format!("after a write that failed at byte {} the same response serializes differently: {} bytes instead of {}, first difference at byte {} ({:?})", k, again.len(), out.len(), i, show(&again[..again.len().min(80)])),
+                    case_json(version, code_idx, calls),
+                );
+                return None;
+            }
+        }
+    }
     Some(out)
+}
+
+/// A sink that accepts `room` bytes in total and then fails with EPIPE.
+struct FailingSink {
+    out: Vec<u8>,
+    room: usize,
+}
+impl Write for FailingSink {
+    fn write(&mut self, buf: &[u8]) -> std::io::Result<usize> {
+        if self.room == 0 {
+            return Err(std::io::Error::from_raw_os_error(libc::EPIPE));
+        }
+        let n = self.room.min(buf.len());
+        self.out.extend_from_slice(&buf[..n]);
+        self.room -= n;
+        Ok(n)
+    }
+    fn flush(&mut self) -> std::io::Result<()> {
+        Ok(())
+    }
 }
 
 /// Re-reads a concatenation of responses with the independent reader.
